@@ -108,6 +108,16 @@ Theorem C19_chain_id_roundtrip : forall c, chain_id_wf c -> chain_id_read (chain
 Proof. exact chain_id_roundtrip. Qed.
 Print Assumptions C19_chain_id_roundtrip.
 
+(** MakeChainId only replaces the four version bytes.  It is a function of (cid, v): chain ids
+    are values in the model; that the Go slices behave like values (the caller's slice is not
+    written to, a sealed parent block is unchanged after a child was prepared across a fork
+    boundary) is what the engine's hold-and-compare cases check. *)
+Theorem C19_make_chain_id_spec : forall cid v out,
+  make_chain_id cid v = Some out ->
+  decode_chain_id_version out = Some (v mod 2 ^ 32)%N /\ chain_id_equal_without_version cid out = true.
+Proof. exact make_chain_id_spec. Qed.
+Print Assumptions C19_make_chain_id_spec.
+
 (** F6 (known finding). *)
 Theorem C19_chain_id_slash_refuted :
   exists c, (cid_version c < 2 ^ 32)%N /\ chain_id_read (chain_id_bytes c) <> Some c.
